@@ -178,6 +178,38 @@ theorem C05_store_failure_stops_everything (cfg : Cfg) (s : PSt) (hf : s.failed 
     simp only [prun, List.foldl, this]
     exact ih
 
+/-- **An empty value is a value.** A state whose encoding is the EMPTY byte string (the Recon of `Option::None`,
+`()`, `Value::Extant`) is handed to the store, kept and restored like any other:
+* `persist_response` makes a `put_value` with the empty payload / an `update_map` with the empty value — never a
+  delete, never a `remove_map`;
+* `ValueInit` replays a stored empty value as an init command with an empty body (then `InitComplete`), and after ANY
+  sequence of store operations ending with `put sid []` the item restarts holding `[]`, whatever its default;
+* after any operations ending with `update k ↦ []` the restarted map HAS key `k` (with the empty value), whereas
+  after `remove k` it has not: an update with an empty value is not a remove. -/
+theorem C05_empty_value_is_a_value {κ : Type} [DecidableEq κ] (ops : List (SOp κ)) (sid : Nat) (dflt : Bytes)
+    (k : κ) (target : Option Nat) (kn : Nat) :
+    persistOp (some sid) (.lane target (.value [])) = some (.put sid []) ∧
+    persistOp (some sid) (.storeValue []) = some (.put sid []) ∧
+    persistOp (some sid) (.lane target (.map (.upd kn []))) = some (.map sid (.upd kn [])) ∧
+    persistOp (some sid) (.storeMap (.upd kn [])) = some (.map sid (.upd kn [])) ∧
+    valueInitMsgs (some []) = [.command [], .initComplete] ∧
+    restoreValue (foldStore (ops ++ [SOp.put sid []])) (some sid) dflt = [] ∧
+    kGet (restoreMap (foldStore (ops ++ [SOp.map sid (.upd k [])])) (some sid)) k = some [] ∧
+    kGet (restoreMap (foldStore (ops ++ [SOp.map sid (.rem k)])) (some sid)) k = none := by
+  refine ⟨rfl, rfl, rfl, rfl, rfl, ?_, ?_, ?_⟩
+  · rw [C05_restart_is_fold_value, lastPut_append]
+    simp [lastPut]
+  · rw [C05_restart_is_fold_map, mapOpsFor_append]
+    simp [mapOpsFor, specMap, List.foldl_append, specApply]
+  · rw [C05_restart_is_fold_map, mapOpsFor_append]
+    simp [mapOpsFor, specMap, List.foldl_append, specApply]
+
+/-- Concretely: `5` then the empty value — the lane comes back empty, not at its default `0` and not at `5`; a map
+with `1 ↦ 1`, `2 ↦ (empty)` comes back with both keys. -/
+example : restoreValue (foldStore [SOp.put 3 [53], .put (3 : Nat) []] : StoreState Nat) (some 3) [48] = [] ∧
+    restoreMap (foldStore [SOp.map 4 (.upd 1 [49]), .map 4 (.upd (2 : Nat) [])]) (some 4) = [(1, [49]), (2, [])] := by
+  decide
+
 /-! ### Lanes registered while the agent runs (`AgentContext::add_lane` → `TaskMessageResult::AddLane`) -/
 
 /-- **Registration fixes the store id.** Whenever a lane is registered — in the prologue over the initial endpoints
